@@ -330,10 +330,36 @@ func vkMsgs(step map[string]interface{}) []*Message {
 	return msgs
 }
 
-// exec performs one operation (an intent) on the open log.
-func (r *vkRun) exec(step map[string]interface{}) (obs vkObs) {
-	a := vStr(step, "a")
+// vkEffective resolves an intent against the state the log is in: an Append is
+// "append as the current leader", so its leader epoch is never below the
+// latest epoch the log knows (a leader does not append with a stale epoch).
+func (r *vkRun) vkEffective(step map[string]interface{}) map[string]interface{} {
+	if vStr(step, "a") != "Append" {
+		return step
+	}
+	latest := int64(r.l.LastLeaderEpoch())
+	out := map[string]interface{}{"a": "Append"}
+	recs := []interface{}{}
+	for _, sr := range vList(step, "recs") {
+		ep := vInt(sr, "ep")
+		if ep < latest {
+			ep = latest
+		}
+		recs = append(recs, map[string]interface{}{"ep": float64(ep), "val": sr["val"], "key": sr["key"]})
+	}
+	out["recs"] = recs
+	return out
+}
+
+// exec performs one operation (an intent) on the open log and returns the
+// operation as it was issued.
+func (r *vkRun) exec(in map[string]interface{}) (step map[string]interface{}, obs vkObs) {
+	a := vStr(in, "a")
 	obs = vkObs{A: a, Ret: []int64{}}
+	step = in
+	if r.l != nil {
+		step = r.vkEffective(in)
+	}
 	defer func() {
 		if p := recover(); p != nil {
 			obs.Err = fmt.Sprintf("panic:%v", p)
@@ -369,7 +395,7 @@ func (r *vkRun) exec(step map[string]interface{}) (obs vkObs) {
 	if err != nil {
 		obs.Err = "error:" + err.Error()
 	}
-	return obs
+	return step, obs
 }
 
 // ---- worker mode -----------------------------------------------------------
@@ -418,6 +444,7 @@ func vkWorker(t *testing.T) {
 		run.exec(st)
 		journal.Write([]byte("."))
 	}
+	_ = wl.Post
 	journal.Close()
 	os.Exit(0) // without Close: nothing after the last step is of interest
 }
@@ -579,11 +606,11 @@ func vkObserver(t *testing.T) {
 	}
 	ev("CrashRecover", args, vkProject(run.l, dir), vkObs{A: "CrashRecover", Ret: []int64{}})
 	for _, st := range wl.Post {
-		obs := run.exec(st)
+		eff, obs := run.exec(st)
 		if run.l == nil {
 			break
 		}
-		ev(vStr(st, "a"), st, vkProject(run.l, dir), obs)
+		ev(vStr(st, "a"), eff, vkProject(run.l, dir), obs)
 	}
 	os.Exit(0)
 }
@@ -635,8 +662,6 @@ func TestVerifCrash(t *testing.T) {
 		base := tid
 		dir := filepath.Join(root, fmt.Sprintf("b%d", base))
 		wlPath := dir + ".json"
-		wb, _ := json.Marshal(wl)
-		os.WriteFile(wlPath, wb, 0644)
 		var (
 			cur   map[string]int
 			total = map[string]int{}
@@ -655,9 +680,11 @@ func TestVerifCrash(t *testing.T) {
 			St: states[0], Obs: vkObs{A: "Open", Ret: []int64{}}})
 		for i, st := range wl.Steps {
 			cur = map[string]int{}
-			obs := run.exec(st)
+			eff, obs := run.exec(st)
 			hits := cur
 			cur = nil
+			st = eff
+			wl.Steps[i] = eff // the operation as issued (epochs resolved)
 			states = append(states, vkProject(run.l, dir))
 			tw.Emit(vkEvent{T: base, K: "base", A: vStr(st, "a"), Args: st, Cfg: wl.Cfg, St: states[i+1], Obs: obs})
 			names := make([]string, 0, len(hits))
@@ -691,11 +718,13 @@ func TestVerifCrash(t *testing.T) {
 		VerifCrashHook = nil
 		// the follow-up operations also run on the uncrashed log (clean base line)
 		for _, st := range wl.Post {
-			obs := run.exec(st)
-			tw.Emit(vkEvent{T: base, K: "base", A: vStr(st, "a"), Args: st, Cfg: wl.Cfg, St: vkProject(run.l, dir), Obs: obs})
+			eff, obs := run.exec(st)
+			tw.Emit(vkEvent{T: base, K: "base", A: vStr(st, "a"), Args: eff, Cfg: wl.Cfg, St: vkProject(run.l, dir), Obs: obs})
 		}
 		run.l.Close()
 		os.RemoveAll(dir)
+		wb, _ := json.Marshal(wl)
+		os.WriteFile(wlPath, wb, 0644)
 	}
 
 	// 2. crash runs, bounded pool
